@@ -229,6 +229,25 @@ func runC19(args []string) {
 		g := &schema.Gen{R: newRand(r.Seed + int64(len(l.Name))), Cfg: schema.GenCfg{Imports: true, Comments: true, Attrs: true, Consts: true, MaxDefs: 6, MaxDepth: 3}}
 		cells = append(cells, &c19Cell{tool: "bebopfmt", input: "valid:generated/" + l.Name, fault: "none", setup: format(schema.Print(g.Random(), l))})
 	}
+	// a fixed schema with doc comments above and trailing comments behind fields, options, members and
+	// definitions, under every layout (LF and CRLF, block and line docs)
+	doc := func(t string) []schema.Doc { return []schema.Doc{{Text: " " + t}} }
+	commented := &schema.Schema{Defs: []*schema.Def{
+		{Kind: "enum", Name: "Kind2", Docs: doc("kinds of thing"), Options: []schema.Option{{Name: "OptA", Lit: "1", Docs: doc("first")}, {Name: "OptB", Lit: "2", Docs: doc("second")}}},
+		{Kind: "struct", Name: "User", Docs: doc("a user"), Fields: []schema.Field{
+			{Name: "id", Type: schema.Simple("guid"), Docs: doc("identity"), Trailing: " trailing one"},
+			{Name: "name", Type: schema.Simple("string"), Trailing: " trailing two"},
+			{Name: "k", Type: schema.Simple("Kind2"), Docs: doc("its kind")}}, Trailing: " after the struct"},
+		{Kind: "message", Name: "Update", Docs: doc("an update"), Fields: []schema.Field{
+			{Name: "u", Type: schema.Simple("User"), Index: 1, Docs: doc("who")},
+			{Name: "at", Type: schema.Simple("date"), Index: 2, Docs: doc("when"), Trailing: " trailing three"}}},
+		{Kind: "union", Name: "Uni2", Docs: doc("either"), Branches: []schema.Branch{
+			{Index: 1, Docs: doc("branch one"), Def: &schema.Def{Kind: "struct", Name: "BrX", Fields: []schema.Field{{Name: "a", Type: schema.Simple("int32"), Docs: doc("a")}}}},
+			{Index: 2, Docs: doc("branch two"), Def: &schema.Def{Kind: "message", Name: "BrY", Fields: []schema.Field{{Name: "b", Type: schema.Simple("string"), Index: 1, Trailing: " trailing four"}}}}}},
+	}}
+	for _, l := range schema.Layouts {
+		cells = append(cells, &c19Cell{tool: "bebopfmt", input: "valid:commented/" + l.Name, fault: "none", setup: format(schema.Print(commented, l))})
+	}
 	invDir := filepath.Join(core.Repo(), "testdata", "invalid")
 	if ents, err := os.ReadDir(invDir); err == nil {
 		for _, e := range ents {
